@@ -315,8 +315,16 @@ pub fn exec_case(case: &Value, want: &BTreeSet<String>) -> RunOutcome {
     let c07_nt = check_c07(&inst, &o, &mut ro.violations);
     // key order of the reported objective (documented priority order)
     let want_keys = ["unservedPassengers", "maintenanceViolation", "vehicleCount", "costs"];
-    if o.objective_keys.iter().map(|s| s.as_str()).collect::<Vec<_>>() != want_keys {
-        ro.violations.push(viol("C08", "C08.json_level_order", format!("objectiveValue lists {:?}, documented order is {:?}", o.objective_keys, want_keys)));
+    // (the order of the keys inside the JSON object is not demanded: JSON objects are unordered and the
+    //  property is about the order in which the search compares the levels, which H1 records)
+    {
+        let mut a: Vec<&str> = o.objective_keys.iter().map(|s| s.as_str()).collect();
+        let mut b = want_keys.to_vec();
+        a.sort();
+        b.sort();
+        if a != b {
+            ro.violations.push(viol("C04", "C04.objective_components", format!("objectiveValue lists {:?}, documented components are {:?}", o.objective_keys, want_keys)));
+        }
     }
     let _ = n0;
 
